@@ -104,6 +104,15 @@ class LasAppender:
                 )
             )
 
+        if isinstance(points, ScaleAwarePointRecord) and points.array.ndim == 0:
+            # one point (points[i]): handled as a one-element view of the same memory
+            points = ScaleAwarePointRecord(
+                points.array.reshape(1),
+                points.point_format,
+                points.scales,
+                points.offsets,
+            )
+
         restore_needed = False
         if isinstance(points, ScaleAwarePointRecord) and (
             np.any(points.scales != self.header.scales)
